@@ -142,6 +142,14 @@ def run(ctx):
                 gn["in_hist"] = [ren]
                 gn["map_over"] = [ren.get(x, x) for x in over]
                 dist["renamed"] += 1
+            if rng.random() < 0.5:
+                # a renamed variant of the mapping node is derived and thrown away before the node is used
+                cur_over = list(gn["map_over"])
+                if len(cur_over) >= 2 and rng.random() < 0.6:
+                    a_, b_ = rng.sample(cur_over, 2)
+                    gn["discarded_derivations"] = [{a_: b_, b_: a_}]
+                else:
+                    gn["discarded_derivations"] = [{rng.choice(cur_over): "elsewhere"}]
             outer = {"nodes": [gn, F("post", ["k"], ["p_out"], ["sym", "post"])], "bound": {}, "entrypoints": None, "selected": None}
             rng.shuffle(outer["nodes"])
             o_inputs = {ren.get(k, k): v for k, v in inputs.items()}
